@@ -260,8 +260,77 @@ pub fn index_str(string: &Str, idx: usize, stack: &mut Vec<Primitive>) -> (r: Re
     return gen, obls, log
 
 
+
+CHARS_SPEC = r"""
+""" + VITER_SPEC + r"""
+// `s.chars()`: the characters in order
+#[verifier::external_body] pub fn str_chars_iter(s: &Str) -> (r: VIter<char>) ensures r.v@ == chars_seq(s) { unimplemented!() }
+pub trait VerifChar2 { fn verif_char_to_string(self) -> Str; }
+impl VerifChar2 for char { #[verifier::external_body] fn verif_char_to_string(self) -> (r: Str) ensures chars_seq(&r) == seq![self] { unimplemented!() } }
+// Display for Primitive (uninterpreted: what `print` shows)
+pub uninterp spec fn display(p: Primitive) -> Seq<u8>;
+impl Primitive { #[verifier::external_body] pub fn verif_to_string(&self) -> (r: Str) ensures bytes(&r) == display(*self) { unimplemented!() } }
+"""
+
+CHARS_INV = """invariant
+            verif_i <= verif_src@.len(), verif_out@.len() == verif_i,
+            forall|j: int| 0 <= j < verif_i ==> (#[trigger] verif_out@[j]) is Str && chars_seq(&verif_out@[j]->Str_0) == seq![verif_src@[j]],
+        decreases verif_src@.len() - verif_i,"""
+
+
+def build_chars(repo):
+    src = Source(repo)
+    log = []
+    frun = src.fn(FUNC, "run", "impl BuiltInFunction")
+
+    def chain(b):
+        return ["let", *b["n"], "= {", "let verif_src =", *b["it"], ". collect_vec ( ) ; let mut verif_out : Vec < Primitive > = Vec :: new ( ) ; let mut verif_i : usize = 0 ;",
+                "while verif_i < verif_src . len ( )", G(CHARS_INV), "{", "let", *b["c"], "= verif_src [ verif_i ] ;", "let verif_item =", *b["body"], ";",
+                "verif_out . push ( verif_item ) ; verif_i += 1 ;", "}", "verif_out", "} ;"]
+    R = [
+        Rule("R8", "unreachable ! ( )", "{ vpanic ( ) ; return Err ( VErr ) }", why="unreachable!: excluded by the precondition on the argument vector"),
+        Rule("R9", "arguments . first ( )", "args_first ( & arguments )", why="slice::first"),
+        Rule("R9", "$x . chars ( )", "str_chars_iter ( $x )", why="str::chars: the characters in order"),
+        Rule("R1", "v . to_string ( )", "str_to_owned ( v )", why="str::to_string"),
+        Rule("R2", "let $n = $$it . map ( | $c | $$body ) . collect ( ) ;", chain, why="chars().map(closure).collect(): the loop that evaluates the closure body for each character in order"),
+        Rule("R1", "vector ! ( raw $$e )", "Primitive :: Vector ( $$e )", why="vector!(raw v): a new list with these elements"),
+        Rule("R1", "c . to_string ( )", "c . verif_char_to_string ( )", why="char::to_string: the one-character string"),
+        Rule("R6", "primitive . to_string ( )", "primitive . verif_to_string ( )", why="Display for Primitive: abstract"),
+    ]
+    CONTRACTS = {
+        "StrChars": """requires recv(arguments@)
+    ensures ({ let s = chars_seq(&arguments@[0]->Str_0);
+        // a list with one one-character string per character, in order
+        &&& r is Ok && r->Ok_0.0 is Some && r->Ok_0.0->Some_0 is Vector && r->Ok_0.0->Some_0->Vector_0@.len() == s.len()
+        &&& forall|i: int| 0 <= i < s.len() ==> (#[trigger] r->Ok_0.0->Some_0->Vector_0@[i]) is Str && chars_seq(&r->Ok_0.0->Some_0->Vector_0@[i]->Str_0) == seq![s[i]] })""",
+        "GenericToStr": """requires arguments@.len() >= 1
+    ensures is_str(r, display(arguments@[0]))      // the text `print` shows for the value""",
+    }
+    fns, obls = [], []
+    for name, contract in CONTRACTS.items():
+        try:
+            arm = extract_match_arm(frun["body"], f"Self :: {name}")
+        except Exception as e:
+            raise Undecided(f"{FUNC}: arm Self::{name} not found: {e}")
+        b = translate(arm["body"], R, log, f"BuiltInFunction::run[{name}]")
+        check_closed(b, name)
+        fns.append(f"""
+//@ OBL C14.{name}
+pub fn arm_{name}(arguments: Vec<Primitive>) -> (r: Result<(Option<Primitive>, Option<Bridge>), VErr>)
+    {contract}
+{{
+{render(b, 1)}
+}}
+""")
+        obls.append(Obl(f"C14.{name}", ["C14"], fn=f"arm_{name}", desc=f"BuiltInFunction::run arm {name}: " + ("one one-character string per character, in order" if name == "StrChars" else "the display text of the receiver, as a string")))
+    gen = header(log, f"{FUNC}: BuiltInFunction::run arms StrChars, GenericToStr") + SPEC + CHARS_SPEC + "\n".join(fns) + "\n} // verus!\nfn main() {}\n"
+    return gen, obls, log
+
+
 UNITS = [VUnit("c14_str", ["C14", "C17"], "string methods with positions: result inside the domain, failure outside (V-t)", build)]
 UNITS[0].assumes = ["strings are byte sequences with an uninterpreted char-boundary predicate; positions are byte positions as the code uses them (the statement's `indexing` by characters is vec_op's nth())",
                     "std contracts assumed: str::get returns None exactly where indexing / split_at / insert_str would panic",
                     "argument vector shape (receiver is a string, argument kinds) is a precondition (compiler's typing)",
-                    "contains, index_of, reverse, replace, chars, parse_* and string * / + are not covered by this unit"]
+                    "parse_* and string * / + are covered by other units (c14_parse, c05_*)"]
+UNITS.append(VUnit("c14_chars", ["C14"], "`chars` and `to_str`: one string per character in order; the display text", build_chars))
+UNITS[1].assumes = ["str::chars yields the characters in order; char::to_string is the one-character string; Display for Primitive is abstract (`display`)", "argument vector shape is a precondition (compiler's typing)"]
